@@ -249,11 +249,11 @@ def run(ctx):
     ctx.units("expected-lists", unit_expected, [{}])
     ctx.units("corpus", unit_bad, [{}])
     ctx.units("state-x-kind", unit_states, [{}])
-    ctx.units("noisy-documents", unit_noisy, [{"n": 700 if q else 9000, "seed": ctx.seed, "shard": i} for i in range(4 if q else 16)], procs=16)
+    ctx.units("noisy-documents", unit_noisy, [{"n": 1050 if q else 9000, "seed": ctx.seed, "shard": i} for i in range(8 if q else 16)], procs=16)
     ns = 16
     ctx.units("fault-combinations", unit_combos, [{"lengths": [1, 2, 3, 4] if q else [1, 2, 3, 4, 5], "sampled_length": 4 if q else 5, "sample": 2 if q else 3, "seed": ctx.seed,
                                                    "shard": i, "nshards": ns} for i in range(ns)], procs=ns)
-    ctx.units("many-faults", unit_many, [{"n": 150 if q else 2000, "seed": ctx.seed, "shard": i} for i in range(2 if q else 16)], procs=16)
+    ctx.units("many-faults", unit_many, [{"n": 225 if q else 2000, "seed": ctx.seed, "shard": i} for i in range(8 if q else 16)], procs=16)
     ctx.exhaustive = False
     ctx.extra["exhaustive_part"] = ("42 parser states x 13 line kinds (+ end of file, with and without final newline) as real English text; 42 expected lists vs siblings; all sequences of "
                                    "<= %d of %d fault/structure building blocks (ragged table, tag with blanks, garbage, unknown language, open doc string, ...) after a scenario step, plus a 1/%d sample of length %d" % (
